@@ -51,6 +51,9 @@ def main(tier, replay=None):
     chk.sample({"grid": ["S 3 A 5 10 11 12 13 14 u 2 -1", "G 3 -3 8 3"]})
     n = 6000 if quick else 40000
     camp.run([], pack([viewgen.top(rng, rng.choice([1, 2, 2, 3])) for _ in range(n)], 50), "random")
+    # magnitudes: values beyond 32 bits (unit-scaled: the specification sees value / unit) and slice arguments beyond 32 bits
+    camp.run([], pack(viewgen.unit_views(rng, 600 if quick else 6000), 50), "magnitude/values", sample=False)
+    camp.run([], pack(viewgen.bigpos_views(rng, 400 if quick else 4000), 50), "magnitude/positions", sample=False)
     if hasan:
         env = {"ASAN_OPTIONS": "detect_stack_use_after_return=0:detect_leaks=0:abort_on_error=1"}
         ca = runner.Campaign(chk, hasan, "ViewTrace", "ViewTrace.cfg", env=env)
@@ -59,7 +62,9 @@ def main(tier, replay=None):
         ca.report()
     chk.cov["rule"] = ("an evaluation = one view expression built and iterated on the real library (forward, backward, len, get(i), "
                        "get(-i)); TLC recomputes Elems(view) from the expression and compares; distinct = different expression text")
-    chk.assumptions += ["items are Ints (Zip items: tuples of Ints); predicates and map functions are five resp. three fixed ones",
+    chk.assumptions += ["values beyond 32 bits are checked through unit scaling (view(unit * values) = unit * view(values)); positions "
+                        "beyond 2^30 are logged saturated (every such magnitude selects the same items of a container of < 2^30 items)",
+                        "items are Ints (Zip items: tuples of Ints); predicates and map functions are five resp. three fixed ones",
                         "positional get is not checked for views over Table / Tree (their get takes keys)",
                         "heap constructors (new(Range/Slice/Zip/Filter/Map)) share the *_stack code paths of the macros"]
     camp.report()
